@@ -55,6 +55,16 @@ CHECKS = {
         "Values compared with ==; executors are stepped synchronously through value_async; histories up to 30 steps, 2 datasets.",
         "DESIGN.md section 4, C16",
     ),
+    "C13": (
+        "Hypothesis value generation (full-alphabet text, extreme numbers, nested containers) x every embedding entry point; "
+        "oracle = round-trip ast.literal_eval(emitted literal) == value with recursively identical types",
+        "Randomised search over values of the listed types sent through MetaData, the four result terminals' column/tree/file "
+        "names, declared defaults of typed methods and captured closure/global variables; the emitted literal must evaluate "
+        "back (ast.literal_eval) to an equal value of identical type (floats by repr), ValueError being accepted only at the "
+        "in-lambda entry points for values that are not transportable scalars.",
+        "Trusts ast.literal_eval as inverse; names are str; finite floats only.",
+        "DESIGN.md section 4, C13",
+    ),
 }
 
 NOT_YET = "check not built yet in this round (work in progress; see DESIGN.md section 4 for the planned generator/oracle)"
